@@ -76,6 +76,27 @@ def coordColumns (text : Bytes) : Option (Bytes × Bytes) :=
     | _, _ => none
   | none => none
 
+/-! ### the call histories demanded of a round trip
+Each is the rendering of the conclusion of the corresponding theorem of `Properties/C02.lean`
+(`Properties/C02_checker.lean`: `wantBed_is_roundtrip`, `wantGff_is_roundtrip`, `wantRegion_is_roundtrip`,
+`wantSeq_is_roundtrip`). -/
+
+/-- a reader of `r` columns returns the first `r` columns of the record, then `io.EOF` -/
+def wantBed (r : Nat) (b : Bed.Rec) : String := "r:" ++ bedRec (Bed.firstCols r b) ++ " eof"
+
+/-- one feature equal to the original, then `io.EOF`, and the reader's metadata -/
+def wantGff (hdr : Bool) (f : Gff.Feature) : String := "r:" ++ gffFeature f ++ " eof " ++ metaStr hdr
+
+def wantRegion (hdr : Bool) (name : Bytes) (s e : Int) : String :=
+  "r:" ++ gffItem (.region name (-1) s e) ++ " eof " ++ metaStr hdr
+
+def wantSeq (hdr : Bool) (id : Bytes) (mol : Nat) (letters : Bytes) : String :=
+  "r:" ++ gffItem (.sequence id mol letters) ++ " eof " ++ metaStr hdr
+
+/-- the 1-based inclusive text of the coordinates of a feature: start column, end column -/
+def wantCoords (f : Gff.Feature) : Bytes × Bytes :=
+  (formatInt (if f.start ≥ 0 then f.start + 1 else f.start), formatInt f.stop)
+
 def handleTokens (inp : List String) (obs : String) : Verdict :=
   match inp with
   | "bed" :: n :: w :: r :: cols =>
@@ -99,7 +120,7 @@ def handleTokens (inp : List String) (obs : String) : Verdict :=
               if x.n != x.emitted then fail s!"reported-count {x.n} != bytes-emitted {x.emitted}" tags
               else if x.emitted != x.text.length then fail "bytes-emitted-inconsistent" tags
               else
-                let want := "r:" ++ bedRec (Bed.firstCols r b) ++ " eof"
+                let want := wantBed r b
                 if calls != want then fail s!"read-back-differs want={want}" tags
                 else if m == obs then ok tags else diff m tags
             | none => fail "write-failed-on-well-formed-record" tags
@@ -140,11 +161,11 @@ def handleTokens (inp : List String) (obs : String) : Verdict :=
           if wf then
             if x.n != x.emitted then fail s!"reported-count {x.n} != bytes-emitted {x.emitted}" tags
             else
-              let want := "r:" ++ gffFeature f ++ " eof " ++ metaStr hdr
+              let want := wantGff hdr f
               if calls != want then fail s!"read-back-differs want={want}" tags
               else match coordColumns x.text with
                 | some (a, b) =>
-                  if a != formatInt (if f.start ≥ 0 then f.start + 1 else f.start) || b != formatInt f.stop then
+                  if a != (wantCoords f).1 || b != (wantCoords f).2 then
                     fail "text-not-one-based-inclusive" tags
                   else if m == wr ++ " | " ++ calls then ok tags else diff m tags
                 | none => fail "text-has-no-coordinate-columns" tags
@@ -171,7 +192,7 @@ def handleTokens (inp : List String) (obs : String) : Verdict :=
             | some x =>
               if x.n != x.emitted then fail s!"reported-count {x.n} != bytes-emitted {x.emitted}" tags
               else
-                let want := "r:" ++ gffItem (.region name (-1) s e) ++ " eof " ++ metaStr hdr
+                let want := wantRegion hdr name s e
                 if calls != want then fail s!"region-read-back-differs want={want}" tags
                 else if m == obs then ok tags else diff m tags
             | none => fail "write-failed" tags
@@ -196,7 +217,7 @@ def handleTokens (inp : List String) (obs : String) : Verdict :=
             | some x =>
               if x.n != x.emitted then fail s!"reported-count {x.n} != bytes-emitted {x.emitted}" tags
               else
-                let want := "r:" ++ gffItem (.sequence id mol letters) ++ " eof " ++ metaStr hdr
+                let want := wantSeq hdr id mol letters
                 if calls != want then fail s!"inline-sequence-read-back-differs want={want}" tags
                 else if m == obs then ok tags else diff m tags
             | none => fail "write-failed" tags
